@@ -39,8 +39,20 @@ func solverArgv(name string, seed int) []string {
 	panic("unknown solver " + name)
 }
 
+// NewCappedSolver is NewSolver with a memory cap in MB (z3 only): beyond it the process gives up.
+func NewCappedSolver(name string, timeoutMs int, seed int, memMB int) *Solver {
+	solverMemMB = memMB
+	defer func() { solverMemMB = 0 }()
+	return NewSolver(name, timeoutMs, seed)
+}
+
+var solverMemMB int
+
 func NewSolver(name string, timeoutMs int, seed int) *Solver {
 	argv := solverArgv(name, seed)
+	if solverMemMB > 0 && name != "cvc5" {
+		argv = append(argv, fmt.Sprintf("-memory:%d", solverMemMB))
+	}
 	cmd := exec.Command(argv[0], argv[1:]...)
 	in, _ := cmd.StdinPipe()
 	outp, _ := cmd.StdoutPipe()
